@@ -265,7 +265,7 @@ def jobs_faults(tier, seed, want, names=None, sched=True, pairs=True, monitor_fs
 
 
 def jobs_C03(tier, seed):
-    jobs = jobs_faults(tier, seed, 'C03')
+    jobs = jobs_faults(tier, seed, 'C03', deep_sites=('src:read', 'fs:write'))
     # non-retryable failures that happen to be OSErrors (EIO from the stream, a subscriber raising
     # PermissionError): the retryable family is the connection errors, not every OSError
     bt = base_transfers()
@@ -602,6 +602,12 @@ def jobs_C12(tier, seed):
     s = scn([T_dl('nonseekable', 'o5'), T_dl('nonseekable', 'o6')],
             cfg(max_request_concurrency=2, max_submission_concurrency=2, max_in_memory_download_chunks=1), seed=seed)
     jobs.append(job('e2e two nonseekable downloads window=1', s, BD(tier)['PLAIN'], want, max_execs=400000))
+    # "after ANY set of transfers has finished": one of two transfers fails while shutdown() waits,
+    # the other still has requests and writes to go
+    for trs in ([T_up('nonseekable', 5), T_dl('path', 'o5')], [T_dl('nonseekable', 'o5'), T_dl('path', 'o6')]):
+        s = scn(copy.deepcopy(trs), cfg(max_request_concurrency=2, max_submission_concurrency=2), seed=seed, script='shutdown',
+                victims=[0], faults={'sites': ['s3:', 'stream:fatal', 'src:read'], 'only_key': 0})
+        jobs.append(job(f'e2e one of two fails during shutdown {[t["op"] for t in trs]}', s, BD(tier)['FAULT'], want, max_execs=400000))
     return jobs
 
 
@@ -670,6 +676,17 @@ def jobs_C17(tier, seed):
         s = scn(copy.deepcopy(bt[name]), cfg(max_request_concurrency=2), seed=seed,
                 faults={'sites': ['s3:', 'stream:fatal', 'fs:write']}, **base)
         jobs.append(job(f'two faults {name}', s, BD(tier)['FAULT2'], want, max_execs=400000))
+    # a transfer that already recorded a failure (siblings still in flight) when the with-block is
+    # left through an exception / Ctrl-C / shutdown(cancel): the later cancellation must not replace it
+    for name in ('up-mp-nonseekable', 'dl-ranged-path', 'copy-mp'):
+        for script in ('with_raise_value', 'with_raise_kbd'):
+            s = scn(copy.deepcopy(bt[name]), cfg(max_request_concurrency=2), seed=seed, script=script,
+                    faults={'sites': ['s3:', 'stream:fatal']}, fields=True, field_reads=False)
+            jobs.append(job(f'fault then {script} {name}', s, BD(tier)['FAULT'], want, max_execs=400000))
+        s = scn(copy.deepcopy(bt[name]), cfg(max_request_concurrency=2), seed=seed,
+                inject=[{'kind': 'shutdown_cancel', 'msg': 'bye'}], faults={'sites': ['s3:', 'stream:fatal']},
+                fields=True, field_reads=False)
+        jobs.append(job(f'fault + shutdown(cancel) {name}', s, BD(tier)['CANCELFAULT'], want, max_execs=400000))
     return jobs
 
 
@@ -684,6 +701,15 @@ def jobs_C18(tier, seed):
     ]
     C = cfg(max_request_concurrency=2, max_submission_concurrency=2, max_request_queue_size=2,
             max_submission_queue_size=2, max_io_queue_size=2)
+    # two streamed downloads competing for a one-slot in-memory window: neither may strand the other
+    CW = dict(C, max_in_memory_download_chunks=1)
+    for script in ('shutdown', 'wait'):
+        trs = [T_dl('nonseekable', 'o5'), T_dl('nonseekable', 'o6')]
+        s = scn(copy.deepcopy(trs), dict(CW), seed=seed, script=script)
+        jobs.append(job(f'window=1 two streamed downloads {script}', s, BD(tier)['PLAIN'], want, max_execs=300000))
+        s = scn(copy.deepcopy(trs), dict(CW), seed=seed, script=script, victims=[0],
+                faults={'sites': ['s3:GetObject', 'stream:fatal', 'sink:write'], 'only_key': 0})
+        jobs.append(job(f'window=1 two streamed downloads, first fails, {script}', s, BD(tier)['FAULT'], want, max_execs=300000))
     q = tier == 'quick'
     # one submission thread: the second transfer's submission is queued behind the first one's
     C1 = dict(C, max_submission_concurrency=1)
